@@ -192,6 +192,7 @@ SOURCE_BASENAMES = {'coords.xyz', 'data.txt', 'data2.txt', 'vasprun.xml', 'top.g
 _DATASET_DIR = __import__('re').compile(r'^d\d+$')
 
 
+EXTRA_SOURCES: set = set()  # source file names of datasets with their own stems (registered by the engine)
 ROOT = None  # run directory; set by SimFS so that paths are judged by where they are, whatever the current directory is
 
 
@@ -216,7 +217,7 @@ def is_cache(path: str) -> bool:
         return base.startswith('save_') and '.cache' in base
     if not _DATASET_DIR.match(parts[0]):
         return False
-    return base not in SOURCE_BASENAMES
+    return base not in SOURCE_BASENAMES and base not in EXTRA_SOURCES
 
 
 def rootrel(path: str) -> str:
